@@ -98,6 +98,9 @@ impl AttributeParser {
     }
 
     fn parse_group(&mut self, name: Ident, group: TokenStream) -> Nested {
+        // Consume the separator that follows the group, as the other argument forms do
+        let _ = self.collect_tail(Empty);
+
         Nested::Named(name, NestedValue::Group(group))
     }
 
